@@ -10,6 +10,7 @@ import (
 	"net/http"
 	"regexp"
 	"strings"
+	"sync"
 
 	"github.com/rs/zerolog/log"
 )
@@ -162,13 +163,41 @@ func HaproxyEndpointFormat(
 	}
 }
 
+var (
+	// lastManaged is what the latest successful ManageHAProxyEndpoints asked the proxy to manage.
+	lastManaged      *HAProxyEndpointsRequest
+	lastManagedMutex sync.RWMutex
+)
+
 func ManageHAProxyEndpoints(haproxyEndpoints *HAProxyEndpointsRequest) error {
 	err := updateHAProxyEndpoints(haproxyEndpoints)
 	if err != nil {
 		return err
 	}
+	lastManagedMutex.Lock()
+	lastManaged = haproxyEndpoints
+	lastManagedMutex.Unlock()
 	log.Debug().Msg("✍️  Successfully updated endpoints")
 	return nil
+}
+
+// EndpointsStillToUnmanage drops from a deferred un-registration the endpoints which a later
+// reload has registered again in the meantime.
+func EndpointsStillToUnmanage(candidates []*HAProxyEndpointData) []*HAProxyEndpointData {
+	lastManagedMutex.RLock()
+	defer lastManagedMutex.RUnlock()
+	if lastManaged == nil {
+		return candidates
+	}
+	return EndpointsToUnmanage(candidates, lastManaged.ManagedEndpoints)
+}
+
+// IsManageAllStillRequested tells a deferred unmanage-global whether a later reload has asked
+// the proxy to manage everything again in the meantime.
+func IsManageAllStillRequested() bool {
+	lastManagedMutex.RLock()
+	defer lastManagedMutex.RUnlock()
+	return lastManaged != nil && lastManaged.ManageAll
 }
 
 // EndpointsToUnmanage returns the endpoints of previous which current does not register anymore.
